@@ -7,8 +7,8 @@ NOT_BUILT = "engine not built yet in this round; will be claimed when its check 
 
 # id -> (engine, technique, design_ref, level text, level note)
 CLAIMED = {
- "C16": ("tables", "cross-function agreement of layout constants (verbs, loop steps, bounds) + finite-quotient evaluation of the closed-form size functions over n mod L", "DESIGN.md 4/C16",
-         "Static decision that the ORIGIN layout parameters (index width, group size, residues per line, bytes per line) agree across the six functions that embody them (LAYOUT) and that toOriginLength / fromOriginLength equal the layout's byte count and its inverse for every residue class of the length (LAYOUT-ARITH; exact because each function uses its parameter only through / and % by the layout modulus). Does not decide the decoded residues or fast/slow path equivalence.",
+ "C16": ("tables", "cross-function agreement of layout constants (verbs, loop steps, bounds, loop-bound strictness, emptiness guard, separator set) + finite-quotient evaluation of the closed-form size functions over n mod L", "DESIGN.md 11/C16",
+         "Static decision that the ORIGIN layout parameters (index width, group size, residues per line, bytes per line) agree across the six functions that embody them (LAYOUT), that every residue-index loop bound is the strict index < count on the writer, decoder and reader sides (LOOP-BOUND), that the decoder's emptiness guard is the smallest non-empty block (GUARD-MIN), that fast and slow validation accept the same separator bytes (SEPARATORS), and that toOriginLength / fromOriginLength / Origin.Len equal the layout's byte count and its inverse for every residue class of the length (LAYOUT-ARITH; exact because each function uses its parameter only through / and % by the layout modulus). Does not decide the decoded residues or full fast/slow path equivalence.",
          "The finite-quotient argument is checked syntactically (QuotientUses); the evaluator covers only straight-line integer arithmetic."),
  "C18": ("tables", "constant-table extraction + exhaustive oracle comparison; role-based AST dataflow (go/ast + go/types)", "DESIGN.md 4/C18",
          "Exhaustive static decision of the finite tables (256 byte values for complement/transcribe, all 16 IUPAC query letters for Match) against an IUPAC oracle in the checker, plus structural rules LOOKUP/WIRE/LITERAL/FOLD on the resolved program. Decides the table and wiring clauses of the property, not regexp or suffix-array semantics.",
@@ -16,7 +16,7 @@ CLAIMED = {
  "C01": ('tables',
          'writer/reader agreement of constant tables and of small closed-form functions extracted from the type-checked source (labels via AST reachability from GenBankParser, column widths, calendar tables, reference padding, keyword terminator) + finite-quotient evaluation of isLeapYear over year mod 400',
          'DESIGN.md 11/C01',
-         'Static decision of five necessary writer/reader agreement clauses: every field label the writer can emit is one a reader sub-parser is keyed on (LABELS), all column prefixes / %-Ns widths / the continuation indent are the one depth the reader derives from the LOCUS line (WIDTH), the month and day tables plus the leap-year rule are the Gregorian calendar (CALENDAR, exhaustive), the blanks written after a REFERENCE number are the same function of the number as the blanks the reader consumes (PAD-AGREE), and FlatFileSplit strips exactly the one period the writer appends (TRIM-ONE). Does not decide equality of field values after a round trip.',
+         'Static decision of five necessary writer/reader agreement clauses: every field label the writer can emit is one a reader sub-parser is keyed on (LABELS), all column prefixes / %-Ns widths / the continuation indent are the one depth the reader derives from the LOCUS line (WIDTH), the month and day tables plus the leap-year rule are the Gregorian calendar (CALENDAR, exhaustive), the blanks written after a REFERENCE number are the same function of the number as the blanks the reader consumes (PAD-AGREE), FlatFileSplit strips exactly the one period the writer appends (TRIM-ONE), every free-text value goes through AddPrefix so that continuation lines start at the field depth (PREFIX-ALL), the DBLINK reader accepts every line the writer can emit (DBLINK-AGREE), and the writer never emits an empty line - an abstract interpretation of GenBank.String over where the text ends (BLANK-LINE; the empty-feature-table defect was found this way and repaired). Does not decide equality of field values after a round trip.',
          'Labels are recognised as runs of >= 5 capitals at the head of a writer string constant; time.Format and fmt padding are trusted.'),
  "C02": ('conserve+effects+siblings',
          'structural conservation rules on the syntax tree with resolved objects (FMAP incl. uniform application, FILL), clone cross-checks of Shift/Expand (SIBLING/CLAMP/DELEGATE), Origin length (LEN), and the ownership/effect analysis over go/ssa restricted to Insert/Embed and the location methods they call (PURE)',
@@ -31,17 +31,17 @@ CLAIMED = {
  "C04": ('conserve+effects+siblings',
          'FMAP/FILL structural rules, MOD-NORMALISE idiom rule, MERGE-RANGED symbolic field resolution of the merged range in (*LocationList).Push, clone cross-check of Normalize against Shift, effect analysis restricted to Rotate (PURE)',
          'DESIGN.md 11/C04',
-         'Static decision that Rotate carries every feature over exactly once with key and qualifiers, transforming every one (FMAP), every part of a multi-part location is normalised (FILL), the amount is reduced into [0, L) for every sign and magnitude (MOD-NORMALISE), the origin-spanning split moves the partial markers like the insertion split does (SIBLING), abutting pieces re-merge to exactly {v.Start, u.End, {v.Partial5, u.Partial3}} (MERGE-RANGED), and nothing writes into the argument (PURE). Does not decide the modular arithmetic on coordinates.',
+         'Static decision that Rotate carries every feature over exactly once with key and qualifiers, transforming every one (FMAP), every part of a multi-part location is normalised (FILL), the amount is reduced into [0, L) for every sign and magnitude (MOD-NORMALISE), the origin-spanning split moves the partial markers like the insertion split does (SIBLING), abutting pieces re-merge to exactly {v.Start, u.End, {v.Partial5, u.Partial3}} (MERGE-RANGED), the Ranged methods never rebuild a range from bare coordinates (PARTIAL-CARRY), the strand wrapper only delegates (DELEGATE-COMPLEMENT), interval ends are reduced with (End-1) % L + 1 (NORMALIZE-ARITH; Ambiguous.Normalize repaired), complemented members fuse in reading order (PUSH-COMPLEMENT), and nothing writes into the argument (PURE). Does not decide the modular arithmetic on coordinates.',
          'Same trusted base as C02.'),
  "C05": ('conserve+effects+tables',
          'FILL definite-assignment rule (incl. the two-pointer idiom, total iff l <= r), FMAP conservation rule, LOCATE-RC path rule on Segment.Locate, complement alphabet involution (exhaustive over 256 bytes), effect analysis restricted to Reverse/Complement (PURE)',
          'DESIGN.md 11/C05',
-         "Static decision of 'no part of a multi-part location is lost' as definite assignment of the reversed slice in Joined/Ordered.Reverse, Regions.Complement/Locate and the Region() builders (FILL, REVERSE-MAP), that Reverse, Complement and Concat conserve every feature (FMAP), that a reverse segment is located as the reverse complement of [tail, head) on every return (LOCATE-RC), that the complement table is an involution, and that nothing writes into the argument (PURE). Does not decide the mirroring arithmetic.",
+         "Static decision of 'no part of a multi-part location is lost' as definite assignment of the reversed slice in Joined/Ordered.Reverse, Regions.Complement/Locate and the Region() builders (FILL, REVERSE-MAP), that Reverse, Complement and Concat conserve every feature (FMAP), that a reverse segment is located as the reverse complement of [tail, head) on every return (LOCATE-RC), that Reverse of the simple types is the mirror map on linear forms (MIRROR-ARITH; known finding Between.Reverse, pinned by a test), that Complemented.Reverse only delegates and Ranged.Reverse carries the markers, that the complement table is an involution, and that nothing writes into the argument (PURE). Does not decide the mirroring arithmetic.",
          'Same trusted base as C02; the involution of the complement alphabet is decided under C18 too.'),
  "C07": ('traps',
          "trap-site obligations over the SSA-reachable parser code: the Go compiler's bounds-check-elimination report as the first discharge, then guard facts from the enclosing/preceding syntax, index-search post-conditions, an interprocedural non-negativity analysis, go/cfg typestate for the Request/Advance protocol and for the commit points, error-handling idioms, reviewed tables keyed by (function, kind, operand role) with site counts and of reachable explicit panics",
          'DESIGN.md 11/C07',
-         'Static decision of panic-freedom of everything reachable from the parser entry points with respect to the input-dependent trap kinds: index and slice bounds the compiler cannot prove (IDX), negative counts into Repeat/make/Request (NN), an unchecked Request (REQ-ERR), Advance without a pending Request (REQ-ADV), reading a parse result without testing its error (RES), MustCompile/division by input (MUSTC), an explicit panic that is reachable and not reviewed (PANIC); plus the commit points that turn a malformed feature table / uneven indent into an error instead of a skipped line (COMMIT). Does not decide termination or that inconsistent LOCUS/ORIGIN lengths are rejected.',
+         'Static decision of panic-freedom of everything reachable from the parser entry points with respect to the input-dependent trap kinds: index and slice bounds the compiler cannot prove (IDX), negative counts into Repeat/make/Request (NN), an unchecked Request (REQ-ERR), Advance without a pending Request (REQ-ADV), reading a parse result without testing its error (RES), MustCompile/division by input (MUSTC), an explicit panic that is reachable and not reviewed (PANIC); a backtracking frame left open or closed twice (PUSH-POP; four leaks repaired); plus the commit discipline that turns a malformed field behind a recognised name into an error instead of a skipped line (COMMIT, COMMIT-BODY; ORIGIN and DBLINK repaired, CONTIG and REFERENCE reviewed as lenient). Does not decide termination or that inconsistent LOCUS/ORIGIN lengths are rejected.',
          "Trusts the compiler's prove pass, the documented post-conditions of IndexByte/Index and of (*pars.State).Request; reviewed table rows (layout and shape arguments) each with a one-line reason and a fixed count; two reviewed panics (Join/Order with no argument)."),
  "C09": ("orders", "abstract interpretation over the finite domain of order types (total preorders of the endpoints) of comparison-only code, including loops, slices and sorting with concrete indices", "DESIGN.md 4/C09",
          "Static decision of the partition property itself for every input with up to 3 segments: Minimize, InvertLinear and InvertCircular are evaluated by an abstract interpreter over order types (coordinates are symbolic atoms ranked by a total preorder; the code may only compare, copy and store them), once per ordering of the endpoints with 0 and n (18 948 orderings, flat, bare and nested region shapes), against the partition oracle; plus BySegment.Less is a strict weak order and Min/Max/Compare are correct (all 4683 / 3 orderings). Exact for all coordinate values; bounded in the number of segments.",
@@ -49,18 +49,18 @@ CLAIMED = {
  "C15": ('conserve+orders',
          'reaching-definitions provenance analysis on go/cfg with resolved callees (INPUT-COORD), loop-scope rule for edit chains (EDIT-CHAIN), full-equality rule for membership helpers (DEDUP-EXACT), order-type abstract interpretation of the region algebra (<= 2 segments)',
          'DESIGN.md 11/C15',
-         "Static decision of necessary conditions for the six multi-site edit commands: every definition of the locator's argument that reaches the call is the record as scanned (INPUT-COORD), every record written starts its chain of edits from the scanned record, not from the previous record written (EDIT-CHAIN), sites are de-duplicated by full equality only (DEDUP-EXACT), and Minimize / InvertLinear / InvertCircular used by the commands are correct for up to 2 segments for every ordering of the endpoints. Order of application and piece boundaries are value-level and not decided.",
+         "Static decision of necessary conditions for the six multi-site edit commands: every definition of the locator's argument that reaches the call is the record as scanned (INPUT-COORD), every record written starts its chain of edits from the scanned record, not from the previous record written (EDIT-CHAIN), sites are de-duplicated by full equality only (DEDUP-EXACT), every locator returns a fresh slice (LOCATOR-FRESH), and Minimize / InvertLinear / InvertCircular used by the commands are correct for up to 2 segments for every ordering of the endpoints. Order of application and piece boundaries are value-level and not decided.",
          'Edit operations are the exported sequence operations of package gts (also through function-valued locals); Copy/WithTopology/WithInfo preserve coordinates.'),
- "C19": ("orders+conserve", "exact abstract interpretation over orderings (rangeCompare); enumerated-idiom structural rule (FILTER)", "DESIGN.md 4/C19",
-         "Static, exhaustive decision that rangeCompare - the comparison every leaf of LocationLess bottoms out in - is a consistent three-way comparator for all 4683 orderings of six endpoints, and that FeatureSlice.Filter keeps an element exactly on the true edge of the filter call and returns the kept elements unmodified in table order. Selector grammar, LocationLess's recursion and the binary search are not decided.",
-         "Exact for the comparison-only fragment; FILTER recognises the two idioms present or plausible (index list, direct append)."),
+ "C19": ("orders+conserve+effects", "exact abstract interpretation over orderings (rangeCompare); finite automaton evaluation of the clause splitter (ESC-AUTOMATON); enumerated-idiom structural rules (FILTER, REGEXP-PRED, SOURCE-PREFIX, SELECTOR-SPLIT, STRAND-PRED); effect analysis restricted to FeatureSlice.Insert/Filter (PURE)", "DESIGN.md 11/C19",
+         "Static, exhaustive decision that rangeCompare - the comparison every leaf of LocationLess bottoms out in - is a consistent three-way comparator for all 4683 orderings of six endpoints; that FeatureSlice.Filter keeps an element exactly on the true edge of the filter call and returns the kept elements unmodified in table order; that the clause splitter is the two-state backslash-escape automaton on all six transitions (the sticky-escape defect was found this way and repaired); that a clause is split at its first '=', qualifier values are matched with MatchString, the strand filters are equalities on CheckStrand, source features stay first; and that Insert/Filter leave their receiver alone. LocationLess's recursion and the binary search are not decided.",
+         "Exact for the comparison-only fragment and for the automaton; the idiom rules fail closed on an unrecognised style."),
  "C11": ("effects", "interprocedural ownership/effect analysis over go/ssa: type-partitioned abstract objects (root, cell type), summaries (may-write, may-return, stores) iterated to a least fixpoint, class-hierarchy resolution of interface and function-value calls, library axiom table", "DESIGN.md 4/C11",
          "Static decision of the property itself up to the abstraction: for every operation in the derived table (110 functions today, incl. the 16 named by the property) no write executed by the operation or anything it calls - stores, append into spare capacity, copy, library mutators, writes through sub-slices - can land in memory reachable from its arguments. The analysis may report a write that cannot alias, but cannot miss one inside the repository's code.",
          "Library axiom table (pure packages, named mutators of their argument, receiver-only writers, higher-order pure functions); open-world callbacks behind Shiftable/Expandable are assumed not to write their receiver; reviewed exception (*Origin).Bytes (idempotent representation cache); no unsafe in the repository."),
  "C12": ('traps+conserve',
          'trap-site obligations (compiler BCE report + guard facts + reviewed shape table) on gts.Repair, and structural rules GROUP-KEY / GROUP-ALL / KEEP-ALL / FORCE-SOURCE / ONLY-LOC / MERGE-RANGED on the syntax tree',
          'DESIGN.md 15/C12',
-         "Narrow static decision of clauses of the property: Repair never indexes or slices out of range (the genuine crash on tables with a joined location was found this way and repaired), features are grouped by key AND qualifiers, every feature is filed into a group and every group contributes to the result exactly once (nothing is dropped other than by merging), forced merging is reserved for source features, merged ranges take start and 5' marker from the left piece and end and 3' marker from the right, and Repair works on a copy and assigns nothing but locations. Does not decide restoration, idempotence, or the covered residues.",
+         "Narrow static decision of clauses of the property: Repair never indexes or slices out of range (the genuine crash on tables with a joined location was found this way and repaired), features are grouped by key AND qualifiers, every feature is filed into a group and every group contributes to the result exactly once (nothing is dropped other than by merging), forced merging is reserved for source features, merged ranges take start and 5' marker from the left piece and end and 3' marker from the right, Concat offsets later pieces by the residues accumulated before them (CONCAT-OFFSET), and Repair works on a copy and assigns nothing but locations. Does not decide restoration, idempotence, or the covered residues.",
          "Six of the seven trap sites rest on the reviewed shape argument 'the index lists hold range keys of the copied table'; the one input-dependent bound (indices[:len(locs)]) is discharged by its guard."),
  "C13": ("integrity", "must-check / must-pass-through / ordering rules: typestate along go/cfg paths, error-handling idiom matching, sibling cross-check of Open vs CreateLevel, constant-factor agreement", "DESIGN.md 4/C13",
          "Static decision that cache.Open can return a nil error only after the header was read in full (INT-4), the body digest covers every byte after the header (INT-3), all three digests were compared with the right operands and no error dropped (INT-1/2), the file name binds both key digests identically in reader and writer (INT-5), the writer finalises the header last with a consistent layout (INT-6), failed finalisation removes the entry (INT-8) and replay happens only after a valid open (REPLAY). Decides the structural necessary conditions, not the byte-level enumeration of corruptions.",
@@ -68,17 +68,17 @@ CLAIMED = {
  "C14": ('cachekey',
          'flag-to-payload dependence analysis (position-ordered taint over go/ast+go/types), injectivity of the payload encoding by static type (KEY-6), typestate along go/cfg paths, error-handling idiom matching',
          'DESIGN.md 11/C14',
-         'Static decision of the structural clauses of cache transparency over all 19 cached commands (which have no tests): every option read by a command is in the cache key (KEY-1..4), every payload value has a static type encoding/json encodes injectively (KEY-6), digest discipline and rewind in TryCache (KEY-5), replay only after a valid open (REPLAY), the tee writes the same bytes to cache and output (TEE), and a failed run cannot commit an entry (COMMIT). Does not decide byte equality of runs.',
+         'Static decision of the structural clauses of cache transparency over all 19 cached commands (which have no tests): every option read by a command is in the cache key (KEY-1..4), every payload value has a static type encoding/json encodes injectively (KEY-6), is the whole option and not a projection of it (KEY-8), no option is modified after it was first read (KEY-7), digest discipline and rewind in TryCache (KEY-5), replay only after a valid open (REPLAY), the tee writes the same bytes to cache and output (TEE), and a failed run cannot commit an entry (COMMIT). Does not decide byte equality of runs.',
          "Trusts encoding/json on the types KEY-6 accepts, hash.Hash.Write never failing, and go/cfg's model of control flow; commands are recognised as the functions of cmd/gts that call (*ioDelegate).TryCache."),
  "C06": ('conserve',
          'symbolic field resolution and a residue-interval model applied to every clause of (*LocationList).Push (MERGE-RANGED, PUSH-CASES, PUSH-ABSORB), and printer/parser sibling agreement of coordinate offsets, wrapper literals and partial markers (OFFSET-AGREE, WRAP-TOKENS, MARKER-AGREE) on the type-checked syntax tree',
          'DESIGN.md 15/C06',
-         "Narrow static decision of structural necessary conditions: (a) reductions - every clause of Push that drops a location drops only a zero-length site or a point the guard places inside the kept location (PUSH-ABSORB; exact for the guards, which are single equalities of coordinates), clauses match concrete types only (PUSH-CASES), and the merge of abutting ranges is abutting-only, forced when asked, with exactly {v.Start, u.End, {v.Partial5, u.Partial3}} (MERGE-RANGED); (b) text - for each simple location type the constant the printer adds to a coordinate is the one the parser subtracts, the join(/order(/complement( literals, requested lengths and constructors agree, and '<' / '>' are printed and parsed under the same flags. One known finding: Ranged+Point drops the point AFTER the range (pinned by TestLocationReduction). Does not decide parse-then-print equality over the recursive grammar, nested reductions, or the Complemented+Complemented clause.",
+         "Narrow static decision of structural necessary conditions: (a) reductions - every clause of Push that drops a location drops only a zero-length site or a point the guard places inside the kept location (PUSH-ABSORB; exact for the guards, which are single equalities of coordinates), clauses match concrete types only (PUSH-CASES), and the merge of abutting ranges is abutting-only, forced when asked, with exactly {v.Start, u.End, {v.Partial5, u.Partial3}} (MERGE-RANGED); (b) text - for each simple location type the constant the printer adds to a coordinate is the one the parser subtracts, the join(/order(/complement( literals, requested lengths and constructors agree, and '<' / '>' are printed and parsed under the same flags. Also: the Complemented+Complemented clause fuses in reading order (PUSH-COMPLEMENT), complement(...) admits the whole grammar (LOC-GRAMMAR), Join/Order leave their arguments alone (PURE). One known finding: Ranged+Point drops the point AFTER the range (pinned by TestLocationReduction). Does not decide parse-then-print equality over the recursive grammar, nested reductions, or the Complemented+Complemented clause.",
          'The residue model (Between [x,x), Point [x,x+1), Ranged [Start,End) non-empty) is the documented meaning of the types; pars.Int and the pars combinators are trusted.'),
  "C08": ('conserve',
          "structural rules on the type-checked syntax tree: prefix-walk idiom (WALK-PREFIX), mirroring idiom of every Modifier.Apply (MIRROR-APPLY), printer/parser agreement of the modifier grammar (MOD-PAIR), freshness of every Locator's result (LOCATOR-FRESH), precedence and split points of AsLocator (LOC-PRECEDENCE), LOCATE-RC, FILL/REVERSE-MAP on Regions",
          'DESIGN.md 15/C08',
-         "Narrow static decision of structural necessary conditions: the offset walk of Regions.Resize consumes a prefix of the segments only (the genuine three-segment defect was found this way and repaired), every Apply treats reversed bounds as the mirror image of forward ones (the 'commutes with strand mirroring' clause, by construction), two-part modifiers print and parse the same pair of parts in the same order, every locator returns a slice allocated by the call (resizeLocator overwrites it), AsLocator tries modifier, then location, then selector and splits at the first '@', a reverse segment is extracted as the reverse complement, and Regions.Complement/Locate/Resize fill every element. Does not decide the offset arithmetic of Apply / Segment.Resize or equality of extracted sequences.",
+         "Narrow static decision of structural necessary conditions: the offset walk of Regions.Resize consumes a prefix of the segments only (the genuine three-segment defect was found this way and repaired), every Apply treats reversed bounds as the mirror image of forward ones (the 'commutes with strand mirroring' clause, by construction), two-part modifiers print and parse the same pair of parts in the same order, every locator returns a slice allocated by the call (resizeLocator overwrites it), AsLocator tries modifier, then location, then selector and splits at the first '@', complement(...) in a bare locator admits the whole location grammar (LOC-GRAMMAR), a reverse segment is extracted as the reverse complement, and Regions.Complement/Locate/Resize fill every element. Does not decide the offset arithmetic of Apply / Segment.Resize or equality of extracted sequences.",
          'pars combinators trusted; WALK-PREFIX recognises three idioms (loop condition, else-break, index == position).'),
  "C10": ('conserve+effects+siblings',
          'MERGE-RANGED symbolic field resolution, NEG-INDEX and CONCAT-OFFSET structural rules, FMAP conservation over the five operations, clone cross-checks of Shift/Expand, effect analysis restricted to Insert/Embed/Delete/Slice/Concat (PURE)',
@@ -88,7 +88,7 @@ CLAIMED = {
  "C17": ('tables',
          'writer/reader framing agreement extracted from the type-checked source: format string and operands of Fasta.WriteTo, combinator shape and Map callback of FastaParser, description sources of FastaWriter.WriteSeq and GenBankFields.String',
          'DESIGN.md 15/C17',
-         "Narrow static decision of structural necessary conditions: the writer emits '>' + description with every newline replaced + '\\n' + residues wrapped only by wrap.Force + '\\n' (FASTA-WRITE); the reader is '>' header-line body-up-to-next-'>', takes the description from the header line and the residues by splitting at '\\n', stripping a trailing '\\r' from every line and joining with nothing (FASTA-READ; the genuine CRLF defect was found this way and repaired); conversion hands the residues on unchanged and builds the description from Version[:region] Definition (FASTA-DESC). Does not decide equality of the bytes read back, the behaviour of wrap.Force across lengths, or stream framing of N records.",
+         "Narrow static decision of structural necessary conditions: the writer emits '>' + description with every newline replaced + '\\n' + residues wrapped only by wrap.Force + '\\n' (FASTA-WRITE); the reader is '>' header-line body-up-to-next-'>', takes the description from the header line and the residues by splitting at '\\n', stripping a trailing '\\r' from every line and joining with nothing (FASTA-READ; the genuine CRLF defect was found this way and repaired); conversion hands the residues on unchanged and builds the description from Version[:region] Definition (FASTA-DESC). The ORIGIN layout rules of C16 are included because conversion decodes the ORIGIN block. Does not decide equality of the bytes read back, the behaviour of wrap.Force across lengths, or stream framing of N records.",
          'wrap.Force and the pars combinators are trusted as documented; a hand-written wrapper is reported undecided, not accepted.'),
 }
 
